@@ -2373,6 +2373,14 @@ func (f *formatter) nodeHasComment(node ast.Node) bool {
 }
 
 func (f *formatter) setTrailingComments(node ast.Node, comments ast.Comments) {
+	switch node.(type) {
+	case *ast.CompoundStringLiteralNode, *ast.NegativeIntLiteralNode, *ast.SignedFloatLiteralNode:
+		// The comments of these composite values are written along with
+		// their tokens, so the trailing comments belong to the last one.
+		if children := node.(ast.CompositeNode).Children(); len(children) > 0 {
+			node = children[len(children)-1]
+		}
+	}
 	f.overrideTrailingComments[node] = comments
 }
 
